@@ -11,10 +11,10 @@
    1.0 / c; the exact theorems assume that they are exact, as they are on the dyadic coefficients of the
    correspondence check (examples at the end).  The tables OPERATOR_MAP / COEFF_MAP are regenerated from
    operators/_pauli_operators.py on every run (Gen/PauliTablesGen.v). *)
-Require Import Coq.ZArith.ZArith Coq.Lists.List Coq.Strings.String Coq.Sorting.Permutation.
+Require Import Coq.ZArith.ZArith Coq.Lists.List Coq.Strings.String Coq.Sorting.Permutation Coq.micromega.Lia.
 Require Import OQ.Base.Ring OQ.Base.Sums OQ.Base.Bits OQ.Base.Mat OQ.Gen.PauliTablesGen OQ.Pauli.Algebra
   OQ.Pauli.Den OQ.Pauli.TablesProofs OQ.Pauli.DenProofs OQ.Pauli.SumProofs OQ.Pauli.OpsProofs
-  OQ.Pauli.AlgebraCases.
+  OQ.Pauli.EqCompleteProofs OQ.Pauli.AlgebraCases.
 Import ListNotations.
 
 (* ---- the tables in the source are the multiplication table of the 2x2 Pauli matrices --------------- *)
@@ -109,10 +109,15 @@ Proof. exact py_pow_defined. Qed.
 Print Assumptions pow_defined_for_every_exponent.
 
 (* ---- results stay inside the representation invariant, so the theorems compose --------------------- *)
-Theorem results_well_formed : forall (K : cring) (is_zero : K -> bool) (n : nat) (a b r : operand K),
-  operand_ok n a -> operand_ok n b ->
-  (py_add is_zero a b = Some r -> operand_ok n r) /\ (py_mul is_zero a b = Some r -> operand_ok n r).
-Proof. intros K z n a b r Ha Hb. split; [apply py_add_ok|apply py_mul_ok]; assumption. Qed.
+Theorem results_well_formed : forall (K : cring) (is_zero : K -> bool) (kinv : K -> option K) (n : nat)
+  (a b r : operand K), operand_ok n a -> operand_ok n b ->
+  (py_add is_zero a b = Some r -> operand_ok n r) /\ (py_sub is_zero a b = Some r -> operand_ok n r) /\
+  (py_mul is_zero a b = Some r -> operand_ok n r) /\ (py_div is_zero kinv a b = Some r -> operand_ok n r) /\
+  (py_simplify is_zero a = Some r -> operand_ok n r).
+Proof.
+  intros K z kinv n a b r Ha Hb.
+  repeat split; [apply py_add_ok|apply py_sub_ok|apply py_mul_ok|apply py_div_ok|apply py_simplify_ok]; assumption.
+Qed.
 Print Assumptions results_well_formed.
 
 (* ---- == between simplified operands: equal implies equal matrices, whatever the order of the terms -- *)
@@ -128,10 +133,18 @@ Theorem eq_ignores_term_order : forall (K : cring) (keqb : K -> K -> bool), (for
 Proof. exact sum_eqb_order_irrelevant. Qed.
 Print Assumptions eq_ignores_term_order.
 
-(* Completeness of == (not proved): for simplified sums s1 s2 on n qubits over a ring in which 2 is
-   cancellable, mat_eq (2^n) (sden n s1) (sden n s2) -> sum_eqb keqb s1 s2 = true.  It needs the linear
-   independence of the 4^n Pauli strings (trace orthogonality); here it is covered by the correspondence
-   check and the numpy oracle only.  Two limits of == that the faithful model does show: *)
+(* completeness on simplified sums (pairwise different operator sets, no zero coefficient): sums that denote
+   the same matrix compare equal.  This is the linear independence of the 4^n Pauli strings, proved by
+   trace orthogonality; the ring must allow cancelling 2 (true of the Gaussian rationals and of C). *)
+Theorem eq_complete_on_simplified_sums : forall (K : cring), (forall c : K, cadd c c = c0 -> c = c0) ->
+  forall keqb : K -> K -> bool, (forall a, keqb a a = true) ->
+  forall (n : nat) (s1 s2 : psum K), sum_ok n s1 -> sum_ok n s2 -> distinct_ops s1 -> distinct_ops s2 ->
+  Forall (fun t => coef t <> c0) s1 -> Forall (fun t => coef t <> c0) s2 ->
+  mat_eq (2 ^ n) (sden n s1) (sden n s2) -> sum_eqb keqb s1 s2 = true.
+Proof. exact sum_eqb_complete. Qed.
+Print Assumptions eq_complete_on_simplified_sums.
+
+(* Two limits of == that the faithful model shows: *)
 
 (* (1) without simplification == is not sound: equal length and equal *sets* of terms is all it checks *)
 Theorem eq_unsound_on_unsimplified_sums_refuted :
@@ -140,7 +153,8 @@ Theorem eq_unsound_on_unsimplified_sums_refuted :
 Proof. exact eq_unsimplified_counterexample. Qed.
 Print Assumptions eq_unsound_on_unsimplified_sums_refuted.
 
-(* (2) finding F33: the empty sum does not compare equal to the number 0 although both denote the zero matrix *)
+(* (2) finding F33: with a plain number on one side completeness fails - the empty sum does not compare equal
+   to the number 0 although both denote the zero matrix *)
 Theorem eq_empty_sum_vs_zero_refuted :
   @py_eq GQring gq_is_zero gq_eqb (OS []) (ON c0) = false /\
   forall n, mat_eq (2 ^ n) (oden n (@OS GQring [])) (oden n (@ON GQring c0)).
@@ -150,17 +164,21 @@ Print Assumptions eq_empty_sum_vs_zero_refuted.
 (* ---- the hypotheses are met by the instance the correspondence check runs on ----------------------- *)
 Example instance_meets_hypotheses :
   (forall c : GQring, gq_is_zero c = true -> c = c0) /\ (forall a b : GQ, gq_eqb a b = true -> a = b) /\
-  (forall a : GQ, gq_eqb a a = true) /\ (forall c r : GQring, gq_inv c = Some r -> cmul r c = c1).
-Proof. repeat split; [exact gq_is_zero_exact|exact gq_eqb_eq|exact gq_eqb_refl|exact gq_inv_spec]. Qed.
+  (forall a : GQ, gq_eqb a a = true) /\ (forall c r : GQring, gq_inv c = Some r -> cmul r c = c1) /\
+  (forall c : GQring, cadd c c = c0 -> c = c0).
+Proof. repeat split; [exact gq_is_zero_exact|exact gq_eqb_eq|exact gq_eqb_refl|exact gq_inv_spec|exact gq_two_cancel]. Qed.
 
 (* (2 X0) * (i Z0) = 2 Y0 : X Z = -i Y *)
 Example product_example :
-  g_mul (oterm (tm 2 0 0 [(0%nat, PX)])) (oterm (tm 0 1 0 [(0%nat, PZ)])) = Some (oterm (tm 2 0 0 [(0%nat, PY)])).
+  bin_eqb 2 (oterm (tm 2 0 0 [(0%nat, PX)])) (oterm (tm 0 1 0 [(0%nat, PZ)])) (Some (oterm (tm 2 0 0 [(0%nat, PY)]))) = true.
 Proof. vm_compute. reflexivity. Qed.
 
 (* a well-formed operand on 3 qubits, and a simplified sum *)
 Example operand_ok_example : operand_ok 3 (osum [tm 1 0 0 [(0%nat, PX); (2%nat, PZ)]; tm 0 3 1 [(1%nat, PY)]]).
-Proof. repeat constructor; cbn; intros; intuition (subst; auto with arith). Qed.
+Proof.
+  unfold osum, operand_ok, sum_ok. repeat apply Forall_cons; try apply Forall_nil;
+    (split; [cbn; intuition lia|intros q Hq; cbn in Hq; intuition lia]).
+Qed.
 
 Example simplified_example : simplified_operand GQring (osum [tm 1 0 0 [(0%nat, PX)]; tm 0 3 1 [(1%nat, PY)]]).
-Proof. repeat constructor; cbn; intuition discriminate. Qed.
+Proof. repeat constructor; cbn; intros H; repeat (destruct H as [H|H]; try discriminate H); exact H. Qed.
